@@ -7,7 +7,7 @@
    Reading.  R (W o1 x) ~ R (W o2 x) is split along the two halves of the file.
    HEADER.  write (Model/Writer.v) = write_sections (wo_version o) (wo_wrap o) (col_fmt o 0) m
    — steps 1-9:
-   WRAP item, version, VERS substituted in a copy of ~Version, STRT/STOP/STEP refresh, unit
+   WRAP item, version, DLM SPACE and VERS substituted in a copy of ~Version, STRT/STOP/STEP refresh, unit
    alignment, standardize_value, the item lines of the four sections — followed by
    header_lines (wo_header_width o): the title lines "~Version -----" around those item lines,
    followed by write_data o: the ~ASCII line and the data lines (C12_write_factors).
